@@ -79,6 +79,7 @@ func runC14(c *Ctx) {
 	r.Doc("A2", "Rate: credit/debit accounting - credits sum to the dividend on every path", 2)
 	r.Doc("A3", "Fair: one base credit per priority, extra units to a prefix of the list", 2)
 	r.Doc("A5", "Fair: base = dividend/n, remainder = dividend - base*n, n = len(priorities), no early exit", 2)
+	r.Doc("A6", "a divider leaves without distributing only when there is nothing to distribute to: every return that does not pass through the distribution loop lies behind an `== 0` / `== nil` test", 4)
 	r.Doc("A4", "v1 and v2 implementations have equal canonical effect summaries", 3)
 	ds := dividerFns(c)
 	fairOK := true
@@ -93,12 +94,38 @@ func runC14(c *Ctx) {
 		}
 		checkA1(c, d.p, d.fair)
 		checkA1(c, d.p, d.rate)
+		checkA6(c, d.p, d.fair)
+		checkA6(c, d.p, d.rate)
 		checkA2(c, d.p, d.rate)
 		fairOK = checkA35(c, d.p, d.fair) && fairOK
 	}
 	checkA4(c, ds[0].p, ds[0].fair, ds[1].p, ds[1].fair, "Fair", fairOK)
 	checkA4(c, ds[0].p, ds[0].rate, ds[1].p, ds[1].rate, "Rate", false)
 	checkA4(c, ds[0].p, ds[0].sum, ds[1].p, ds[1].sum, "SumPriorities", false)
+}
+
+// checkA6: returns that bypass the distribution loop.
+func checkA6(c *Ctx, p *Prog, fn *ssa.Function) {
+	loop := map[*ssa.BasicBlock]bool{}
+	for _, comp := range sccs(fn.Blocks, blockSet(fn.Blocks)) {
+		for _, b := range comp {
+			loop[b] = true
+		}
+	}
+	var problems []string
+	n := 0
+	if len(loop) == 0 {
+		problems = append(problems, "UNDECIDED: the divider has no distribution loop")
+	}
+	for _, ret := range returnsBypassing(fn, loop) {
+		n++
+		b := ret.Block()
+		ok := AllPathsPass(b, func(e CondEdge) bool { return p.isZeroTestEdge(e, 0) })
+		if !ok {
+			problems = append(problems, "the return at "+p.InstrPos(ret)+" leaves without distributing under "+describeEdges(p, DomEdges(b))+", which is not a nothing-to-distribute test (== 0 / == nil): the dividend is not handed out")
+		}
+	}
+	c.R.Check(len(problems) == 0, "A6", p.FnKey(fn), p.Pos(fn.Pos()), fmt.Sprintf("%d early returns, each behind an == 0 / == nil test", n), strings.Join(dedup(problems), "; "))
 }
 
 func checkA1(c *Ctx, p *Prog, fn *ssa.Function) {
@@ -359,7 +386,8 @@ func checkA35(c *Ctx, p *Prog, fn *ssa.Function) bool {
 			iff := e.From.Instrs[len(e.From.Instrs)-1].(*ssa.If)
 			if rem != nil {
 				cm := p.NormCmp(iff.Cond, e.Succ == 0)
-				if cm != nil && ((cm.Op == token.LSS && cm.L.String() == "0" && cm.R.V == ssa.Value(rem)) || (cm.Op == token.NEQ && cm.L.V == ssa.Value(rem))) {
+				if cm != nil && cm.LC == 0 && cm.RC == 0 && ((cm.Op == token.LSS && cm.L.String() == "0" && cm.R.V == ssa.Value(rem)) ||
+					(cm.Op == token.NEQ && cm.L.V == ssa.Value(rem) && cm.R.String() == "0") || (cm.Op == token.NEQ && cm.R.V == ssa.Value(rem) && cm.L.String() == "0")) {
 					paired := false
 					for _, fe := range flatPhiEdges(rem) {
 						if bo, isB := fe.v.(*ssa.BinOp); isB && bo.Op == token.SUB && bo.X == ssa.Value(rem) {
